@@ -162,6 +162,23 @@ func scenario(x *explore.X) {
 		}
 		x.Outcome(fmt.Sprintf("forwarded/%d", len(elems(lines))))
 	}
+	// afterwards - also after a refused loop - an ordinary request with a foreign chain is forwarded as ever
+	// (the modifier is one long-lived object: what it did for the previous request must leave nothing behind)
+	if kind != 2 && !x.Failed() {
+		cl2, _ := w.Client()
+		cl2.Send([]byte("GET " + target + " HTTP/1.1\r\nHost: " + originHost + "\r\nVia: 1.1 afterwards\r\n\r\n"))
+		msgs, conns, _ = nh.Next()
+		x.Check()
+		if len(msgs) != 1 {
+			x.Failf("foreign-via-refused/after-the-previous-request", "after a request with Via %s (loop=%v): an ordinary request with Via \"1.1 afterwards\" was not forwarded: client got %q", desc, hasOwn, world.Clip(cl2.Recv()))
+		} else {
+			if got := elems(msgs[0].Get("Via")); strings.Join(got, "|") != "1.1 afterwards|1.1 "+tag {
+				x.Failf("via-chain/after-the-previous-request", "after a request with Via %s (loop=%v): forwarded Via elements %q, want [1.1 afterwards, 1.1 %s]", desc, hasOwn, got, tag)
+			}
+			nh.Conns[conns[0]].Send([]byte("HTTP/1.1 200 OK\r\nContent-Length: 2\r\n\r\nok"))
+		}
+		cl2.Close()
+	}
 	cl.Close()
 	if err := w.Stop(); err != nil {
 		x.Failf("shutdown", "%v", err)
